@@ -2,7 +2,7 @@
    Header parsing, body decoding and the response classes of aiohttp / flask / werkzeug are oracles: [media_type] is the
    specification of what they must compute and the correspondence run posts through the frameworks' own test clients. *)
 From Coq Require Import ZArith List String Ascii Bool.
-From PJ Require Import Base.Json Base.Res Generated.Consts Model.Http Lemmas.HttpL.
+From PJ Require Import Base.Json Base.Res Generated.Consts Model.Msg Model.Bind Model.Dispatch Model.Http Lemmas.HttpL.
 Import ListNotations.
 Open Scope string_scope. Open Scope list_scope.
 
@@ -32,6 +32,20 @@ Theorem C18_default_status : forall i codes, status_of (effective_status i SDefa
 Proof. exact default_status. Qed.
 Theorem C18_uniform : forall i j h b, handle i SDefault h b = handle j SDefault h b.
 Proof. exact uniform. Qed.
+
+(* composed with the dispatcher model: the status is the status function applied to the error tuple of the relayed document (one entry
+   per answered call, 0 for a success), so status functions that count calls or tell partial from total failure get what they need *)
+Theorem C18_relays_dispatcher : forall cfg l ctx i f h doc codes lg,
+  accepted_type h = true -> dispatch cfg l ctx = (Ok (Some (doc, codes)), lg) ->
+  handle i f h (BText (Some (doc, codes))) =
+  {| r_status := status_of (effective_status i f) (codes_of_doc doc); r_ctype := Some default_content_type;
+     r_body := Some doc; r_dispatched := true |}.
+Proof. exact relay_dispatch. Qed.
+Theorem C18_partial_failure : forall a p k codes,
+  In 0%Z codes -> (exists c, In c codes /\ c <> 0%Z) -> status_of (SMixed a p k) codes = p.
+Proof. exact mixed_partial. Qed.
+Theorem C18_count : forall b docs, status_of (SCount b) (codes_of_doc (JArr docs)) = (b + Z.of_nat (List.length docs))%Z.
+Proof. exact count_spec. Qed.
 
 Example C18_ex :
   accepted_type (Some "Application/JSON-RPC ; charset=utf-8") = true /\ accepted_type (Some "application/jsonx") = false
